@@ -72,7 +72,28 @@ class C02(PropBase):
         cfg = ctx.cfg
         run = history.Run(ctx, cfg, [history.TwinOracle("C02")])
         if ctx.doc is None:
+            gadget = ctx.rng("gadget").random() < 0.1 and not cfg.get("tops")
+            if gadget:
+                # a parametrised space with two bases that define the same cells, an instance of it in use: the edit that
+                # switches which base the cells comes from changes no name - only what the instance has to answer
+                def cells(space, name, v):
+                    return {"op": "new_cells", "space": space, "name": name, "is_cached": True,
+                            "formula": {"style": "lambda", "params": [["x", None]], "ret": ["bin", "+", ["p", "x"], ["c", v]]}}
+                qi = {"op": "eval", "loc": ["C", ["item", [1], "idx"]], "name": "f", "args": [2], "spell": "pos"}
+                qs = {"op": "eval", "loc": ["C"], "name": "f", "args": [2], "spell": "pos"}
+                for op in ({"op": "new_space", "parent": "", "name": "A", "bases": []}, cells("A", "f", 100),
+                           {"op": "new_space", "parent": "", "name": "B", "bases": []}, cells("B", "f", 200),
+                           {"op": "new_space", "parent": "", "name": "C", "bases": ["A", "B"],
+                            "formula": {"params": [["i", None]], "ret": None, "probe": False}}, qi, qs):
+                    run.step(op)
             run.generate(WEIGHTS[cfg["focus"]], cfg["n_steps"], cfg["p_check"])
+            if gadget:
+                rr = ctx.rng("gadget-tail")
+                for op in (qi, rr.choice([{"op": "remove_bases", "space": "C", "bases": ["A"]},
+                                          {"op": "del_cells", "space": "A", "name": "f", "how": "delattr"},
+                                          {"op": "del_space", "space": "A", "how": "delattr"}]),
+                           qi, qs, {"op": "checkpoint", "extra": [qi, qs], "final": True}):
+                    run.step(op)
         else:
             run.replay(ctx.doc["steps"])
         run.finish()
